@@ -189,3 +189,75 @@ func verifC03_struct() {
 	c.CloseNow()
 	vObserve("struct", wire, len(g.msgs), g.err != nil, vWireSummary(t.out))
 }
+
+// C03.deflate: compressed messages given as DEFLATE stored blocks with symbolic data (so the real inflate code runs with
+// concrete control flow), ending in a sync flush (tail stripped) or in a BFINAL=1 block, split over two frames at every
+// offset (including an empty final fragment), optionally with a Ping between the fragments, followed by a second message.
+func verifC03_deflate() {
+	client := vParam("client", 1) == 1
+	mode := vParam("deflate", 1)
+	vInstallRand()
+	n := vChoose("n", vParam("maxN", 3)+1)
+	data := vBytes("data", n)
+	final := vChoose("bfinal", 2) == 1
+	var blocks []int
+	if n > 1 && vChoose("blocks", 2) == 1 {
+		b1 := 1 + vChoose("b1", n-1)
+		blocks = []int{b1, n - b1}
+	} else {
+		blocks = []int{n}
+	}
+	payload := vStored(data, blocks, final)
+	var cuts []int
+	cutAtEnd := false
+	if vChoose("frag", 2) == 1 {
+		k := vChoose("cutAt", len(payload)+1)
+		cuts = []int{k}
+		cutAtEnd = k == len(payload)
+	}
+	frames := vDataFrames(payload, cuts, 2, true, client)
+	var pings [][]byte
+	if len(frames) == 2 && vChoose("ping", 2) == 1 {
+		p := vFrame{fin: true, opcode: 9, masked: !client, payload: vBytes("pingp", 1)}
+		if p.masked {
+			copy(p.key[:], vBytes("key", 4))
+		}
+		pings = append(pings, p.payload)
+		frames = []vFrame{frames[0], p, frames[1]}
+	}
+	// second message: compressed again (exercises reader reuse / context takeover bookkeeping) or plain
+	second := vBytes("second", 2)
+	if vChoose("secondCompressed", 2) == 1 {
+		frames = append(frames, vDataFrames(vStored(second, []int{2}, false), nil, 1, true, client)...)
+	} else {
+		frames = append(frames, vDataFrames(second, nil, 1, false, client)...)
+	}
+	t := vNewTransport(vEncodeFrames(frames))
+	t.step = vChoose("step", 2)
+	c := vNewConn(t, client, vCopts(mode), 64, 256)
+	g := vReadLoop(c, 1+vChoose("buf", 2)*5, 3)
+	vReach("C03.deflate.read")
+	if client {
+		vClassify("role", "client")
+	} else {
+		vClassify("role", "server")
+	}
+	if final {
+		vReach("C03.deflate.bfinal1")
+		if cutAtEnd {
+			vClassify("shape", "bfinal1-block-ends-at-nonfinal-frame-end")
+		} else {
+			vClassify("shape", "bfinal1")
+		}
+	} else {
+		vClassify("shape", "sync-flush")
+	}
+	ok := len(g.msgs) == 2
+	if ok {
+		ok = vAnd(vAnd(g.types[0] == MessageBinary, vEqBytes(g.msgs[0], data)), vAnd(g.types[1] == MessageText, vEqBytes(g.msgs[1], second)))
+	}
+	vAssert(ok, "C03.deflate.messages")
+	vCheckControlReplies(t, vExpect{pongs: pings}, client, "C03.deflate")
+	c.CloseNow()
+	vObserve("deflate", len(g.msgs), vWireSummary(t.out))
+}
